@@ -22,6 +22,11 @@ type E struct{}
 
 func (e *E) Do(p *int) {}
 
+// an unexported method m(int): promoted into embedders, never satisfies another package's m()
+type E2 struct{}
+
+func (E2) m(int) {}
+
 // same NAME as ifs.Reader, different contract
 type Reader interface {
 	Read(p []byte) (int, error)
@@ -73,6 +78,30 @@ type Sealed interface {
 type Base struct{}
 
 func (Base) sealed() {}
+
+// identical types that print differently
+type AnyI interface {
+	M(x any, ys ...any)
+}
+
+type ByteI interface {
+	W(p []byte) (n int, err error)
+	R() rune
+}
+
+type FnNames interface {
+	Each(fn func(key string, value int) bool)
+}
+
+type AlComp interface {
+	C(xs []MyAlias, m map[MyAlias]MyAlias, ch chan MyAlias, f func(MyAlias) MyAlias)
+}
+
+// an unexported method of THIS package: a method hidden() declared in another package is a different method
+type Hidden interface {
+	Pub()
+	hidden()
+}
 `
 
 const c05SrcU = `package u
@@ -131,6 +160,52 @@ type T8 struct {
 
 func (t T8) Name() string { return "" }
 
+//«a10»
+type T10 struct{}
+
+func (t T10) M(x interface{}, ys ...interface{}) {}
+
+//«a11»
+type T11 struct{}
+
+func (t T11) W(p []uint8) (int, error) { return 0, nil }
+func (t T11) R() int32                { return 0 }
+
+//«a12»
+type T12 struct{}
+
+func (t T12) Each(fn func(k string, v int) bool) {}
+
+//«a13»
+type T13 struct{}
+
+func (t T13) C(xs []int, m map[int]int, ch chan int, f func(int) int) {}
+
+//«a14»
+type T14 struct{}
+
+func (t T14) Pub()    {}
+func (t T14) hidden() {}
+
+// a defined type whose underlying type is an interface
+//«a15»
+type T15 interface {
+	Read(p []byte) (int, error)
+	Close() error
+}
+
+type UI interface {
+	m()
+}
+
+// own m() next to a promoted yaml.m(int): two different methods that share a name
+//«a16»
+type T16 struct {
+	yaml.E2
+}
+
+func (t T16) m() {}
+
 var _ = ifs.Named(0)
 var _ yy.Empty
 var _ yaml.M
@@ -157,6 +232,7 @@ var c05Alts = []string{
 	" @implements ifs.Var", " @implements ifs.Sl", " @implements yaml.M", " @implements &yaml.M", " @implements yaml.N", " @implements ifs.Al", " @implements &ifs.Fn",
 	" @implements ifs.Empty", " @implements ifs.Nope", " @implements ifs.NotIface", " @implements nope.Reader", " @implements yamlv3.M", " @implements u.Local", " plain",
 	" @implements ifs.Sealed", " @implements &ifs.Sealed", " @implements rd.M", " @implements &rd.N",
+	" @implements ifs.AnyI", " @implements ifs.ByteI", " @implements ifs.FnNames", " @implements ifs.AlComp", " @implements ifs.Hidden", " @implements UI",
 }
 
 // what Go's type checker says about one annotation spelling on one type: "" (fine), IMPL01, IMPL02 or IMPL03
@@ -241,12 +317,12 @@ func c05GoMissing(prog *nd.Prog, typeName, alt string) map[string]bool {
 // parameters, func/map parameters, embedded interfaces and promotion through an embedded pointer: the reported code on
 // each type equals the verdict of go/types (Implements / scope lookup / import bindings).
 func ZZC05Zoo() {
-	typeNames := []string{"T1", "T2", "T3", "T4", "T5", "T6", "T7", "T8", "T9"}
+	typeNames := []string{"T1", "T2", "T3", "T4", "T5", "T6", "T7", "T8", "T9", "T10", "T11", "T12", "T13", "T14", "T15", "T16"}
 	holes := []nd.Hole{}
 	vals := map[string]string{}
 	nonPlain := 0
-	for i, tn := range typeNames {
-		h := "a" + string(rune('1'+i))
+	for _, tn := range typeNames {
+		h := "a" + tn[1:]
 		v := nd.EnumPad(h, c05Alts...)
 		vals[tn] = v
 		holes = append(holes, nd.Hole{Name: h, Value: v})
@@ -287,7 +363,7 @@ func ZZC05Zoo() {
 		if tn == "T9" {
 			file, fsrc = "/zz/zzmod/u/u2.go", c05SrcU2
 		}
-		line := nd.LineOf(fsrc, "type "+tn+" struct")
+		line := nd.LineOf(fsrc, "type "+tn+" ")
 		_ = i
 		for _, code := range []string{"IMPL01", "IMPL02", "IMPL03"} {
 			cond := false
@@ -314,7 +390,7 @@ func ZZC05Zoo() {
 			if tn == "T9" {
 				file, fsrc = "/zz/zzmod/u/u2.go", c05SrcU2
 			}
-			if d.File != file || d.Line != nd.LineOf(fsrc, "type "+tn+" struct") {
+			if d.File != file || d.Line != nd.LineOf(fsrc, "type "+tn+" ") {
 				continue
 			}
 			for _, alt := range c05Alts {
